@@ -2151,6 +2151,12 @@ def _recover_post(ctx):
                 goals.append((f"push.{cls}.addresses-iterated-stage", z3.Implies(g, I.getattr(m, "stage_id").t == z3.Select(ids, sg))))
                 if cls == "StartStage":
                     goals.append((f"push.{cls}.stage-running-or-not-started", z3.Implies(g, in_set(z3.Select(sarr, sg), I, ("RUNNING", "NOT_STARTED")))))
+                    # a synthetic (before / after) stage that has not started is started by its parent's handlers at the right
+                    # moment, never by the sweep (unless it shows evidence of having been started: a start time)
+                    sels = SElem(stages.lid, (sg,))
+                    goals.append((f"push.{cls}.never-starts-a-synthetic-stage-early", z3.Implies(
+                        z3.And(g, z3.Select(sarr, sg) == status(I, "NOT_STARTED")),
+                        ctx.ev("s.parent_stage_id is None or s.start_time is not None or exists(s.tasks, lambda t: t.start_time is not None)", {"s": sels}))))
                     # C01 (nothing stuck half-started): a stage that was claimed (RUNNING, start_time set) and already has its
                     # tasks, none of them started yet, is not a zombie -- StartStage would be absorbed by the status guard --
                     # so recovery must not answer it with StartStage (it has to start the first task instead)
@@ -2214,6 +2220,13 @@ def _recover_task_level(ctx, planned=False):
                         ex_first = z3.Exists([kq], z3.And(kq >= 0, kq < n_t, I._select(tid_arr, (sgi, kq)) == tid.t, I._select(tst_arr, (sgi, kq)) == status(I, want),
                                                           z3.ForAll([jq], z3.Implies(z3.And(jq >= 0, jq < kq), I._select(tst_arr, (sgi, jq)) != status(I, want)))))
                         goals.append(("push.StartTask.is-the-first-not-started-task", z3.Implies(g, z3.Or(ex_first, *firsts))))
+                if b.data["cls"] == "StartTask" and sframe:
+                    # a stage's tasks start only after its before-stages: the sweep must not start a task while a synthetic
+                    # before-child of the stage is unfinished (ContinueParentStage starts the first task then)
+                    selp = SElem(stages.lid, (sframe[0][3],))
+                    goals.append(("push.StartTask.before-stages-of-the-stage-are-finished", z3.Implies(g, ctx.ev(
+                        "forall(execution.stages, lambda c: implies(c.parent_stage_id == s.id and c.synthetic_stage_owner == Owner.STAGE_BEFORE, c.status.is_complete))",
+                        {"s": selp, "execution": full}))))
                 if b.data["cls"] == "StartTask" and child is not None and sframe:
                     # tasks of a stage run one after the other: the sweep starts a task only when no task of the stage is RUNNING
                     # (a RUNNING task -- with or without a queued message -- is still to finish first)
